@@ -263,10 +263,10 @@ def check_process_polygon(ctx, rep, rules=('S-fill', 'W-left', 'W-collapsed', 'W
         alias = name_events(p, evs, ['e1', 'e2'])
         e1, e2 = evs
         for d, nm in ((e1, 'e1'), (e2, 'e2')):
-            ok = is_const_bool(d.get('left'), False) and param_name(d.get('contour_id')) == 'contour_id' \
+            ok = param_name(d.get('contour_id')) == 'contour_id' \
                 and param_name(d.get('is_subject')) == 'is_subject' and param_name(d.get('is_exterior_ring')) == 'is_exterior_ring'
             rep.ob(R_FILL, 'event-fields(%s)@%s' % (nm, key), ok,
-                   '%s must be created with left=false and the ring\'s contour_id / is_subject / is_exterior_ring; found left=%s '
+                   '%s must be created with the ring\'s contour_id / is_subject / is_exterior_ring (its left flag is W-left\'s business); found left=%s '
                    'contour_id=%s is_subject=%s exterior=%s' % (nm, show(d.get('left', ('c', '?'))), show(d.get('contour_id', ('c', '?'))),
                                                                show(d.get('is_subject', ('c', '?'))), show(d.get('is_exterior_ring', ('c', '?')))),
                    loc=b.loc(d['_line']), reason='provenance')
@@ -278,22 +278,71 @@ def check_process_polygon(ctx, rep, rules=('S-fill', 'W-left', 'W-collapsed', 'W
         rep.ob(R_FILL, 'mutual-links@' + key, ok,
                'the two events of an edge must point at each other: e2.other_event=%s at creation, stores %s' % (t2, link),
                loc=b.loc(e2['_line']), reason='provenance')
-        # W-left
-        lefts = [(obj_root(ptr, alias, p.final.mem), show(val)) for (i, ptr, f, val) in cs if f == 'left']
-        exp = None
-        if 'order' in conds:
-            op, a, bb, val = conds['order']
-            na = obj_root(a, alias, p.final.mem)
-            nb = obj_root(bb, alias, p.final.mem)
-            # reversed heap order: x < y  <=>  x comes later in the sweep, so y is the left (earlier) event
-            if op == 'lt':
-                later, earlier = (na, nb) if val else (nb, na)
-            else:
-                later, earlier = (nb, na) if val else (na, nb)
-            exp = [(earlier, 'True')]
-        rep.ob(R_LEFT, 'left-flag@' + key, exp is not None and lefts == exp,
-               'exactly the event that comes first in sweep order must get left=true: expected %s, found %s' % (exp, lefts),
-               loc=b.loc(b.j['line_lo']), reason='table-row', expected=exp, found=lefts)
+        # W-left: after the iteration exactly the event at the lexicographically smaller point (x, then y: the one that comes first
+        # in the sweep) is flagged left - whether the flag is given at creation or set after comparing the two events.  Evaluated
+        # on concrete end points.
+        import itertools as _it
+
+        def ev(v, env):
+            x = strip_upd(v)
+            if sym.is_const(x):
+                return x[1]
+            c_ = coord_of_line(x)
+            if c_:
+                return env[c_[0]][0 if c_[1] == 'x' else 1]
+            w_ = line_point(x)
+            if w_:
+                return env[w_]
+            if x[0] == 'agg' and x[1] == 'tuple':
+                return tuple(ev(q, env) for q in x[4])
+            if x[0] == 'op' and x[1] == 'not':
+                return not ev(x[2], env)
+            if x[0] == 'op' and len(x) == 4 and x[1] in ('lt', 'gt', 'le', 'ge', 'eq', 'ne', 'bitand', 'bitor', 'bitxor'):
+                names_ = [obj_root(q, alias, p.final.mem) for q in (x[2], x[3])]
+                if set(names_) == {'e1', 'e2'} and x[1] in ('lt', 'gt', 'le', 'ge'):
+                    # Ord of events is the reversed sweep order: a < b  <=>  a comes later  <=>  point(a) > point(b)
+                    pa, pb = (env['start'] if n_ == 'e1' else env['end'] for n_ in names_)
+                    return {'lt': pa > pb, 'le': pa > pb, 'gt': pa < pb, 'ge': pa < pb}[x[1]]
+                l_, r_ = ev(x[2], env), ev(x[3], env)
+                return {'lt': l_ < r_, 'gt': l_ > r_, 'le': l_ <= r_, 'ge': l_ >= r_, 'eq': l_ == r_, 'ne': l_ != r_,
+                        'bitand': bool(l_) and bool(r_), 'bitor': bool(l_) or bool(r_), 'bitxor': bool(l_) != bool(r_)}[x[1]]
+            raise ValueError(show(noepoch(x))[:60])
+
+        final = {'e1': e1.get('left'), 'e2': e2.get('left')}
+        for (i, ptr, f, val) in cs:
+            if f == 'left':
+                who = obj_root(ptr, alias, p.final.mem)
+                if who in final:
+                    final[who] = val
+        bad_left = []
+        n_env = 0
+        try:
+            for sx, sy, ex, ey in _it.product((0, 1), repeat=4):
+                if (sx, sy) == (ex, ey):
+                    continue
+                env = {'start': (sx, sy), 'end': (ex, ey)}
+                feasible = True
+                for (v, c) in p.conds:
+                    try:
+                        r_ = ev(noepoch(v), env)
+                    except (ValueError, KeyError, TypeError, IndexError):
+                        continue
+                    if c[0] == 'eq' and bool(r_) != bool(c[1]):
+                        feasible = False
+                        break
+                if not feasible:
+                    continue
+                n_env += 1
+                got = (bool(ev(noepoch(final['e1']), env)), bool(ev(noepoch(final['e2']), env)))
+                want = ((sx, sy) < (ex, ey), (sx, sy) > (ex, ey))
+                if got != want:
+                    bad_left.append((env, got, want))
+        except (ValueError, KeyError, TypeError, IndexError) as e_:
+            bad_left.append(('not evaluable: %s' % e_, None, None))
+        rep.ob(R_LEFT, 'left-flag@' + key, not bad_left and n_env > 0,
+               'exactly the event that comes first in sweep order (smaller x, then smaller y) must end up with left=true: %s'
+               % ('for %s the flags (e1, e2) are %s, expected %s' % bad_left[0] if bad_left else 'no end-point configuration reaches this path'),
+               loc=b.loc(b.j['line_lo']), reason='table-row')
         # pushes
         pushed = [obj_root(e['args'][1], alias, p.final.mem) for e in pushes]
         qs = set(param_name(e['args'][0]) for e in pushes)
@@ -334,8 +383,8 @@ def check_process_polygon(ctx, rep, rules=('S-fill', 'W-left', 'W-collapsed', 'W
         rep.ob(R_ITER, 'no-loop-carried-input@' + key, not bad,
                'event fields depend on state carried over from earlier edges of the ring: %s' % bad, loc=b.loc(b.j['line_lo']),
                reason='provenance')
-    rep.floor(R_FILL, 'non-collapsed loop paths', n_paths, 2)
-    rep.floor(R_ACC, 'box update sites on paths', n_acc, 8)
+    rep.floor(R_FILL, 'non-collapsed loop paths', n_paths, 1)
+    rep.floor(R_ACC, 'box update sites on paths', n_acc, 4)
 
 
 def acc_arg(a):
